@@ -398,6 +398,35 @@ def check(ctx):
     bs = C.calls(fb, 'bsearch')
     r4.check(len(bs) == 1 and C.declref(C.call_args(bs[0])[-1]) == 'cmp_attribute' and 'header->n_attributes' in ns(gb.text_of(C.call_args(bs[0])[2])),
              'binary search over all n_attributes with cmp_attribute', 'girepository/gibaseinfo.c', gb.line(ff), 'bsearch call changed')
+    # every attribute iterator stops at the first entry whose key differs from the key it searched for
+    its = 0
+    for rel in ('girepository/gibaseinfo.c', 'girepository/gicallableinfo.c'):
+        tu = ctx.c.tu(rel)
+        for fname, f in sorted(tu.functions.items()):
+            if fname == '_attribute_blob_find_first' or not tu.in_main_file(f) or tu.body(f) is None or not C.calls(tu.body(f), '_attribute_blob_find_first'):
+                continue
+            S = cgsa.summarise(ctx, rel, fname, opaque={'_attribute_blob_find_first'})
+            keys = set(e.args[1] for e in gsa.find(S, 'call', r'^_attribute_blob_find_first$') if e.args and len(e.args) > 1)
+            succ = [e for e in gsa.find(S, 'return') if e.value not in ('0', 'NULL') and e.fn == fname]
+            its += 1
+            for e in succ:
+                cmpd = []
+                differs = {}
+                for a in gsa.atoms(e.cond):
+                    m = re.match(r'^(.*)->offset == (.*)$', a)
+                    if m:
+                        cmpd.append((a, m.group(2)))
+                        differs[a] = False
+                    elif re.match(r'^(.*)->offset$', a):      # `x->offset != 0` is the truth of x->offset
+                        cmpd.append((a, '0'))
+                        differs[a] = True
+                strict = not gsa.can_hold(e.cond, differs)
+                r4.check(bool(cmpd) and strict and set(k for a, k in cmpd) == keys, '%s: iteration ends where the node offset differs from the searched key' % fname,
+                         rel, e.line, '%s searches the attribute table for %s but a successful step only requires the entry offset to equal %s: '
+                         'attributes of another node are reported (or the node\'s own are not)' % (fname, sorted(keys), sorted(set(k for a, k in cmpd))),
+                         detail={'keys': sorted(keys), 'compared': sorted(set(k for a, k in cmpd))})
+    if its < 2:
+        raise AnalysisError('attribute iterators not found (expected g_base_info_iterate_attributes and g_callable_info_iterate_return_attributes)')
     # writer side: nodes_with_attributes sorted by offset before write_attributes
     wm = gm.func('_g_ir_module_build_typelib')
     srt = [c for c in C.calls(gm.body(wm), ('g_list_sort', 'g_list_sort_with_data'))]
@@ -408,6 +437,111 @@ def check(ctx):
             ms = sorted(set(n.get('name') for n in C.walk(gm.body(gm.functions[fnn])) if n.get('kind') == 'MemberExpr'))
             sort_ok = sort_ok or ms == ['offset']
     r4.check(sort_ok, 'writer sorts attributed nodes by offset', GM, gm.line(wm), 'the attribute table is not sorted by node offset before it is written')
+
+    # ------------------------------------------------------------------ R6 enumerator values keep their sign
+    r6 = ctx.rule('R6', 'a stored enumerator value is widened to 64 bits with the signedness recorded in ValueBlob.unsigned_value '
+                  '(typed conversion chain from ValueBlob.value to the returned gint64)', floor=2)
+    ev = ctx.c.tu(FILES['ENUM'])
+
+    def tname(n):
+        t = n.get('type', {})
+        return t.get('desugaredQualType') or t.get('qualType') or ''
+
+    def is_unsigned(t):
+        return t.startswith('unsigned') or t in ('guint', 'guint32', 'guint64', 'gulong', 'gsize', 'guint16', 'guint8')
+
+    def is_64(t):
+        return t in ('long', 'unsigned long', 'long long', 'unsigned long long', 'gint64', 'guint64')
+
+    def uv_polarity(cond, pol):
+        c = C.strip(cond)
+        while c.get('kind') == 'UnaryOperator' and c.get('opcode') == '!':
+            pol = not pol
+            c = C.strip(C.kids(c)[0])
+        if c.get('kind') == 'BinaryOperator' and c.get('opcode') in ('==', '!='):
+            a, b = [C.strip(x) for x in C.kids(c)]
+            lit = C.int_value(b) if a.get('kind') == 'MemberExpr' else C.int_value(a)
+            me = a if a.get('kind') == 'MemberExpr' else b
+            if lit is not None and me.get('kind') == 'MemberExpr':
+                truth = (lit != 0) if c.get('opcode') == '==' else (lit == 0)
+                return me, (pol if truth else not pol)
+            return None, None
+        return c, pol
+
+    for fname, f in sorted(ev.functions.items()):
+        if not ev.in_main_file(f) or ev.body(f) is None:
+            continue
+        for M in C.walk(ev.body(f)):
+            if not (M.get('kind') == 'MemberExpr' and M.get('name') == 'value' and C.base_record_type(M) == 'ValueBlob'):
+                continue
+            chain = [tname(M)]
+            cur = M
+            while True:
+                par = ev.par(cur)
+                if par is None:
+                    break
+                k = par.get('kind')
+                if k in ('ImplicitCastExpr', 'CStyleCastExpr', 'ParenExpr'):
+                    if par.get('castKind') != 'LValueToRValue' and k != 'ParenExpr':
+                        chain.append(tname(par))
+                elif k == 'ConditionalOperator' and cur is not C.kids(par)[0]:
+                    chain.append(tname(par))
+                else:
+                    break
+                cur = par
+            if not any(is_64(t) for t in chain):
+                continue            # not widened here
+            pol = None
+            for cond, p_, origin in C.guards(ev, M):
+                me, pp = uv_polarity(cond, p_)
+                if me is not None and me.get('kind') == 'MemberExpr' and me.get('name') == 'unsigned_value':
+                    pol = pp
+            first64 = min(i for i, t in enumerate(chain) if is_64(t))
+            narrow = chain[1:first64]
+            if pol is False:
+                ok = not any(is_unsigned(t) for t in narrow)
+                why = 'on the path where unsigned_value is 0 the signed 32-bit value passes through %s before it is widened: negative values come out as 2^32-|v|' % [t for t in narrow if is_unsigned(t)]
+            elif pol is True:
+                ok = any(is_unsigned(t) for t in narrow)
+                why = 'on the path where unsigned_value is 1 the value is sign-extended (conversion chain %s): values above 2^31-1 come out negative' % chain
+            else:
+                ok = False
+                why = 'ValueBlob.value is widened to 64 bits without consulting ValueBlob.unsigned_value (conversion chain %s)' % chain
+            r6.check(ok, '%s: %s-path conversion %s' % (fname, {True: 'unsigned', False: 'signed', None: 'unguarded'}[pol], '->'.join(chain)), FILES['ENUM'], ev.line(M), why,
+                     detail={'chain': chain, 'unsigned_value': pol})
+
+    # ------------------------------------------------------------------ R7 g-ir-generate writes every element type of a container
+    r7 = ctx.rule('R7', 'g-ir-generate descends into exactly the parameter types the compiler stored for each container tag '
+                  '(arity from the G_IR_NODE_TYPE writer; indices 0..arity-1, each fetched type is the one written)', floor=4)
+    arity = {}
+    for sw in C.walk(gn.body(gn.func('_g_ir_node_build_typelib'))):
+        if sw.get('kind') != 'SwitchStmt' or not re.search(r'type->tag$', ns(gn.text_of(C.kids(sw)[0]))):
+            continue
+        for labels, stmts in C.switch_cases(gn, sw):
+            idx = set()
+            for st in stmts:
+                for c in C.calls(st, '_g_ir_node_build_typelib'):
+                    m = re.search(r'parameter_type(\d)', gn.text_of(C.call_args(c)[0]))
+                    if m:
+                        idx.add(int(m.group(1)))
+            for lb in labels:
+                if lb.startswith('GI_TYPE_TAG_') and idx:
+                    arity[lb] = len(idx)
+    if sorted(arity) != ['GI_TYPE_TAG_ARRAY', 'GI_TYPE_TAG_GHASH', 'GI_TYPE_TAG_GLIST', 'GI_TYPE_TAG_GSLIST']:
+        raise AnalysisError('girnode.c: container type tags of the G_IR_NODE_TYPE writer not recognised: %s' % sorted(arity))
+    gwt = ctx.c.tu('girepository/girwriter.c')
+    WT = cgsa.summarise(ctx, 'girepository/girwriter.c', 'write_type_info')
+    tag_atoms = [a for a in WT.atoms() if re.search(r'== GI_TYPE_TAG_\w+$', a) or re.search(r'< GI_TYPE_TAG_ARRAY$', a)]
+    for tg, n in sorted(arity.items()):
+        val = dict((a, a.endswith('== ' + tg)) for a in tag_atoms)
+        rec = [e for e in gsa.find(WT, 'call', r'^write_type_info$') if gsa.can_hold(e.cond, val)]
+        got = sorted(set(e.args[1] for e in rec if e.args and len(e.args) > 1))
+        m_ = [re.match(r'^g_type_info_get_param_type\((\w+),(\d+)\)$', g) for g in got]
+        want = list(range(n))
+        r7.check(all(m_) and sorted(int(x.group(2)) for x in m_ if x) == want, '%s: element types %s are written' % (tg, want), 'girepository/girwriter.c',
+                 rec[0].line if rec else gwt.line(gwt.func('write_type_info')),
+                 'write_type_info writes %s for a %s type, the typelib stores parameter types %s: the generated GIR names a different element type than the API reports' % (got, tg, want),
+                 detail=got)
 
     # ------------------------------------------------------------------ R5 g-ir-generate indices
     r5 = ctx.rule('R5', 'g-ir-generate writes closure/destroy indices for every index >= 0', floor=2)
